@@ -617,6 +617,23 @@ pub fn check(ctx: &mut Ctx) -> Option<Meta> {
                     rule: "random boundary ranges / chunk sizes with random tails".into(),
                 });
             }
+            // sources longer than isize::MAX exist for zero-sized elements only: &[()] and Vec<()> with lengths
+            // {MAX, MAX-1, MAX-7, MAX/2+2, MAX/2+1, MAX/2, 2^62}, pulls with boundary and ordinary chunk sizes
+            let huge = || crate::zsthuge::strategy(false);
+            ctx.run_campaign(&Campaign {
+                name: "seq-huge-zst".into(),
+                cases: scale_cases(ctx, PLAIN_BOOST * 20_000, 25),
+                make_strategy: &huge,
+                run: &crate::c16::eval_c16,
+                rule: "slices and vectors of zero-sized elements with lengths up to usize::MAX, one-shot and buffered chunk pulls with boundary sizes, single pulls, length queries, skip, into_seq_iter; oracle: u128 cursor model, every result predicted exactly".into(),
+            });
+            ctx.run_campaign(&Campaign {
+                name: "seq-huge-zst-twins".into(),
+                cases: scale_cases(ctx, 4_000, 20),
+                make_strategy: &huge,
+                run: &twin,
+                rule: "the same in both overflow modes".into(),
+            });
             Some(Meta {
                 level: "exploration",
                 rule,
@@ -694,6 +711,13 @@ pub fn check(ctx: &mut Ctx) -> Option<Meta> {
                 make_strategy: &|| crate::multi::strategy(thorough),
                 run: &crate::multi::eval_c19,
                 rule: rule.clone(),
+            });
+            ctx.run_campaign(&Campaign {
+                name: "seq-multi-iterator-huge-zst".into(),
+                cases: scale_cases(ctx, PLAIN_BOOST * 50_000, 30),
+                make_strategy: &|| crate::zsthuge::strategy(true),
+                run: &crate::multi::eval_c19,
+                rule: "the same history shape over &[()] / &Vec<()> of lengths up to usize::MAX (the only collections longer than isize::MAX), pulls with boundary chunk sizes; oracle: one u128 cursor per iterator, clones start at the original's position; non-trivial = >=2 iterators, >=2 pulls, >=1 clone".into(),
             });
             Some(Meta {
                 level: "exploration",
